@@ -376,6 +376,30 @@ def repo_state():
     return {'head': head.strip(), 'dirty_files': [l[3:] for l in st.splitlines()]}
 
 
+def tree_fingerprint(repo=None):
+    """sha256 over the python sources of the femio package of the tree under test (sorted relative paths + contents)"""
+    import hashlib
+    root = Path(repo or REPO) / 'femio'
+    h = hashlib.sha256()
+    for f in sorted(root.rglob('*.py')):
+        h.update(str(f.relative_to(root)).encode() + b'\0')
+        h.update(f.read_bytes() + b'\0')
+    return h.hexdigest()
+
+
+def tree_is_blessed():
+    """True iff the femio sources under test are byte-identical to the tree this harness was last validated against
+    (blessed_tree.json, written by tools/bless.py after the clean-tree runs of every check).  Used for ONE decision only:
+    when the HARNESS ITSELF trips over what the implementation returned and there is no other evidence of breakage, a blessed
+    tree means a harness bug (exit 2), a different tree means the correspondence can no longer be established on that tree
+    (reported as a broken correspondence, `no-failing-input-found`).  A missing / unreadable file counts as blessed (exit 2)."""
+    try:
+        want = json.loads((VERIF / 'blessed_tree.json').read_text())['fingerprint']
+        return tree_fingerprint() == want
+    except Exception:
+        return True
+
+
 def lean_closure(modules):
     """source text of the transitive `import Femio.…` closure of the given modules"""
     seen, todo, text = set(), list(modules), []
